@@ -24,6 +24,12 @@ def run(ctx, res):
     C13.lockstep_emit(ctx, res, "C04.lockstep")
     C13.lockstep_pre(ctx, res, "C04.lockstep")
     dispatch_rule(ctx, res, "C04.dispatch")
+    # the second half of the round trip: whatever valid JSON the printer writes, the strict parser must accept it.  Only the
+    # product findings that make the parser *reject valid text* (or not terminate normally) are relevant here; a parser that
+    # accepts too much, or decodes escapes the printer never writes differently, does not break the round trip.
+    from .. import parsercheck
+    res.rules_run.append("C04.reparse (the strict parser rejects no valid JSON text: product findings of kind rejects-valid / undecided; the rest of C01 is not C04's business)")
+    parsercheck.apply(ctx, res, ["C01.lang", "E2."], strict_only=True, key_filter=lambda k: "rejects-valid" in k, rename="C04.reparse")
     res.assumptions.append("equality of the re-parsed value is the composition of these clauses with C01/C02 (P = R): an argument, not a mechanised proof")
     res.trusted += ["Display for json_number::Number prints the stored text", "summary table (fmt entry points, iterators)", "RFC 8259 section 7 decoder in jsv/tables.py"]
 
